@@ -111,11 +111,12 @@ func (r *Recomposer) registerComposer(rt reflect.Type, fun RecomposeFunc) (*comp
 			continue
 		}
 		ft := f.Type
-		switch ft.Kind() {
-		case reflect.Array, reflect.Slice, reflect.Map, reflect.Ptr:
+		for ft.Kind() == reflect.Array || ft.Kind() == reflect.Slice || ft.Kind() == reflect.Map || ft.Kind() == reflect.Ptr {
 			ft = ft.Elem()
 		}
-		if _, has := r.composers[ft.Name()]; has {
+		// Unnamed types (anonymous structs) all share the empty name, one
+		// being registered says nothing about another.
+		if _, has := r.composers[ft.Name()]; has && 0 < len(ft.Name()) {
 			continue
 		}
 		_, _ = r.registerComposer(ft, nil)
